@@ -117,7 +117,7 @@ m = {
  "setup_cmd": f"cd /verif/govc && {GO} go build -o /verif/bin/govc .",
  "hooks": {
   "guard": "verif",
-  "enable": "contract files <pkg>/zz_contracts_verif.go carry '//go:build verif'; govc loads /repo with -tags verif; they contain comments only and add no symbol",
+  "enable": "<pkg>/zz_contracts_verif.go (contracts: comments only, no symbol) and <pkg>/zz_lemmas_verif.go (lemma functions: real Go composing library functions, never called) carry '//go:build verif'; govc loads /repo with -tags verif; without the tag neither file is compiled",
   "baseline_off_cmd": "cd /repo && go test -mod=mod -vet=off -count=1 -timeout 25m ./...",
   "source_commits": [],
   "add_only": True
